@@ -138,6 +138,15 @@ def episodes(seed, count, big=False):
     eps = []
 
     def ep(n, runs, key, layers):
+        # inputs only inside the domain: runs inside [0, n), disjoint and not adjacent
+        runs = [[s, min(e, n)] for s, e in runs if s < n]
+        merged = []
+        for s, e in sorted(runs):
+            if merged and s <= merged[-1][1]:
+                merged[-1][1] = max(merged[-1][1], e)
+            else:
+                merged.append([s, e])
+        runs = merged
         return {"fam": "rsbig", "src": "recipe", "len": L(n), "runs": [[L(s), L(e)] for s, e in runs], "key": key,
                 "layers": layers, "ops": [{"op": "build"}] + ops_for(r, n, runs), "budget_ms": 300000}
     for k in range(count):
